@@ -276,7 +276,9 @@ func (d *HeadingDetector) detectBodyFontSize(paragraphs []Paragraph) float64 {
 	maxCount := 0
 	mostCommonBucket := 0
 	for bucket, count := range fontCounts {
-		if count > maxCount {
+		// Ties go to the smaller size so that the result does not depend on
+		// map iteration order.
+		if count > maxCount || (count == maxCount && bucket < mostCommonBucket) {
 			maxCount = count
 			mostCommonBucket = bucket
 		}
